@@ -18,7 +18,14 @@ def spelling(l, a, o):
     return body + ('#' * a if a >= 0 else '-' * (-a))
 
 
+_CALLS = [0]
+
+
 def impl_transpose(kp, enc, k, d):
+    # every other call hands over a direction string built at run time (equal to 'up' / 'down', another object)
+    _CALLS[0] += 1
+    if _CALLS[0] % 2:
+        d = (d.upper() + ' ').lower().strip()
     try:
         return 'ok:' + kp.transpose(enc, k, direction=d)
     except Exception:
